@@ -1,7 +1,7 @@
 -------------------------- MODULE PhaseUnwrapTrace --------------------------
 (* Trace validation for C12: the driver runs the real PhaseUnwrapper (16-bit) on whole sequences, as one call and
    split into calls, and logs
-     Config  scen, frac, drop, enable, bias (measured from the constructed object), resetafter, pulsepos, invert
+     Config  scen, frac, drop, enable, biaslevel (the constructor argument), bias (read back from the object, informative), resetafter, pulsepos, invert
      Run     split (call lengths), inp, out
    The predicates are declarative statements about (inp, out); the unwrapper's internal state is not consulted:
    offset_i = out_i - v_i, where v_i is the input after inversion / mask / bit drop.  *)
@@ -16,8 +16,14 @@ Init == l = 1 /\ cfg = [scen |-> 0] /\ first = <<>>
 M == 65536
 TwoPi == 2 ^ (cfg.frac - cfg.drop)
 OnePi == TwoPi \div 2
-Upper == cfg.bias + OnePi
-Lower == cfg.bias - OnePi
+\* The configured bias: the constructor's biasLevel argument in dropped units, reduced into (-TwoPi, TwoPi) keeping its sign
+\* (Go: int16(biasLevel >> drop) % int16(twoPi)).  It is computed here from the logged ARGUMENT, not read back from the
+\* object, so that a constructor which derives other limits than the configured ones is noticed.
+Int16(x) == LET y == ((x % M) + M) % M IN IF y >= 32768 THEN y - M ELSE y
+TruncRem(a, m) == IF a >= 0 THEN a % m ELSE 0 - ((0 - a) % m)
+Bias == TruncRem(Int16(cfg.biaslevel \div (2 ^ cfg.drop)), TwoPi)
+Upper == Bias + OnePi
+Lower == Bias - OnePi
 Home == IF cfg.pulsepos THEN (TwoPi % M) ELSE ((M - ((2 * TwoPi) % M)) % M)
 U(x) == (((x % M) + M) % M)
 Signed(x) == IF x >= 32768 THEN x - M ELSE x
